@@ -1983,6 +1983,9 @@ impl CommandParser {
                     }
                     let seconds = Self::extract_string(&frames[i + 1])?.parse::<u64>()
                         .map_err(|_| FerrousError::Command(CommandError::InvalidIntegerValue))?;
+                    if seconds == 0 {
+                        return Err(FerrousError::Command(CommandError::Generic("invalid expire time in 'set' command".to_string())));
+                    }
                     options.expiration = Some(Duration::from_secs(seconds));
                     i += 2;
                 }
@@ -1992,6 +1995,9 @@ impl CommandParser {
                     }
                     let millis = Self::extract_string(&frames[i + 1])?.parse::<u64>()
                         .map_err(|_| FerrousError::Command(CommandError::InvalidIntegerValue))?;
+                    if millis == 0 {
+                        return Err(FerrousError::Command(CommandError::Generic("invalid expire time in 'set' command".to_string())));
+                    }
                     options.expiration = Some(Duration::from_millis(millis));
                     i += 2;
                 }
@@ -2110,6 +2116,9 @@ impl CommandParser {
         }
         let seconds = Self::extract_string(&frames[2])?.parse::<u64>()
             .map_err(|_| FerrousError::Command(CommandError::InvalidIntegerValue))?;
+        if seconds == 0 {
+            return Err(FerrousError::Command(CommandError::Generic("invalid expire time in 'setex' command".to_string())));
+        }
         Ok(StringCommand::SetEx {
             key: Self::extract_bytes(&frames[1])?,
             value: Self::extract_bytes(&frames[3])?,
@@ -2123,6 +2132,9 @@ impl CommandParser {
         }
         let milliseconds = Self::extract_string(&frames[2])?.parse::<u64>()
             .map_err(|_| FerrousError::Command(CommandError::InvalidIntegerValue))?;
+        if milliseconds == 0 {
+            return Err(FerrousError::Command(CommandError::Generic("invalid expire time in 'psetex' command".to_string())));
+        }
         Ok(StringCommand::PSetEx {
             key: Self::extract_bytes(&frames[1])?,
             value: Self::extract_bytes(&frames[3])?,
